@@ -63,8 +63,20 @@ func (fc *FnCtx) runHooks(ci calleeInfo, in ssa.Instruction, st *State, phase st
 	if len(fc.eng.cs.Hooks) == 0 {
 		return
 	}
+	// guards are evaluated in the state before any ghost update of this site
+	hooks := make([]*Hook, 0, len(fc.eng.cs.Hooks))
 	for _, h := range fc.eng.cs.Hooks {
-		if h.Kind == "store" || !hookMatches(h, ci.name) || !fc.hookActive(h) {
+		if h.IsGuard {
+			hooks = append(hooks, h)
+		}
+	}
+	for _, h := range fc.eng.cs.Hooks {
+		if !h.IsGuard {
+			hooks = append(hooks, h)
+		}
+	}
+	for _, h := range hooks {
+		if (h.Kind != "call" && h.Kind != "go") || !hookMatches(h, ci.name) || !fc.hookActive(h) {
 			continue
 		}
 		if (h.Kind == "go") != (phase == "go") {
@@ -104,6 +116,11 @@ func (fc *FnCtx) runHooks(ci calleeInfo, in ssa.Instruction, st *State, phase st
 }
 
 func (fc *FnCtx) applyHook(h *Hook, env *Env, what string, in ssa.Instruction, st *State) {
+	if fc == fc.root() && env.lookup == nil && fc.cur != nil {
+		// local variables of the enclosing function, with their value just before this instruction
+		cur := fc.cur
+		env.lookup = func(name string) (Val, bool) { return fc.lookupVarBefore(name, cur, in, st) }
+	}
 	defer func() {
 		if r := recover(); r != nil {
 			if se, ok := r.(specErr); ok {
@@ -146,31 +163,53 @@ func (fc *FnCtx) applyHook(h *Hook, env *Env, what string, in ssa.Instruction, s
 
 // storeHooks runs hooks/guards attached to stores of a struct field.
 func (fc *FnCtx) storeHooks(in *ssa.Store, st *State) {
-	if len(fc.eng.cs.Hooks) == 0 {
-		return
+	if fa, ok := in.Addr.(*ssa.FieldAddr); ok {
+		fc.fieldHooks("store", fa, []ssa.Value{fa.X, in.Val}, in, st)
 	}
-	fa, ok := in.Addr.(*ssa.FieldAddr)
-	if !ok {
+}
+
+// fieldHooks runs hooks/guards of the given kind (store, load, mapwrite)
+// attached to a struct field; args are bound to the hook's parameters
+// (object, then stored value / map key).
+func (fc *FnCtx) fieldHooks(kind string, fa *ssa.FieldAddr, args []ssa.Value, in ssa.Instruction, st *State) {
+	if len(fc.eng.cs.Hooks) == 0 {
 		return
 	}
 	st0 := fa.X.Type().Underlying().(*types.Pointer).Elem()
 	name := typeName(st0) + "." + structOf(st0).Field(fa.Field).Name()
+	var hooks []*Hook
 	for _, h := range fc.eng.cs.Hooks {
-		if h.Kind != "store" || !hookMatches(h, name) || !fc.hookActive(h) {
+		if h.IsGuard {
+			hooks = append(hooks, h)
+		}
+	}
+	for _, h := range fc.eng.cs.Hooks {
+		if !h.IsGuard {
+			hooks = append(hooks, h)
+		}
+	}
+	for _, h := range hooks {
+		if h.Kind != kind || !hookMatches(h, name) || !fc.hookActive(h) {
 			continue
 		}
-		env := fc.env(st, fc.root().old)
-		for k, v := range fc.root().params {
-			env.vars[k] = v
-		}
-		args := []Val{fc.val(fa.X), fc.val(in.Val)}
+		env := fc.root().env(st, fc.root().old)
 		for i, p := range h.Params {
 			if i < len(args) && p != "_" {
-				env.vars[p] = args[i]
+				env.vars[p] = fc.val(args[i])
 			}
 		}
 		fc.applyHook(h, env, name, in, st)
 	}
+}
+
+// fieldOfLoad: the FieldAddr a value was loaded from, if it is a direct field load.
+func fieldOfLoad(v ssa.Value) *ssa.FieldAddr {
+	if u, ok := v.(*ssa.UnOp); ok {
+		if fa, ok := u.X.(*ssa.FieldAddr); ok {
+			return fa
+		}
+	}
+	return nil
 }
 
 func (fc *FnCtx) hookGhosts(cc *ssa.CallCommon, ghost func(string)) {
@@ -184,7 +223,7 @@ func (fc *FnCtx) hookGhosts(cc *ssa.CallCommon, ghost func(string)) {
 		name = fc.eng.shortFn(f)
 	}
 	for _, h := range fc.eng.cs.Hooks {
-		if h.Kind != "store" && hookMatches(h, name) {
+		if (h.Kind == "call" || h.Kind == "go") && hookMatches(h, name) {
 			for _, u := range h.Updates {
 				ghost(u.Name)
 			}
